@@ -12,6 +12,7 @@ import (
 	"context"
 	"fmt"
 	"runtime/debug"
+	"sort"
 	"strings"
 	"testing"
 
@@ -307,12 +308,116 @@ func (c *c18Run) twoScopes(kind c18PointKind, descA, descB string) {
 	r.Sample(func() any { return cas })
 }
 
+// twoKinds: two instruments with the SAME name and unit but (possibly) different kinds, in two
+// scopes in the order the enumeration decides, scraped three times. The family each kind gets is
+// the reference name (a counter ends in _total) with the Prometheus type of the kind. Where the two
+// families differ, both are exposed with their values on every scrape; where they coincide in name
+// and type, both series are (told apart by otel_scope_name); where they coincide in name but not
+// in type Prometheus can hold only one: the exporter documents that the first-seen definition is
+// kept -- that instrument must stay exposed, faithfully, on EVERY scrape (the second is not judged).
+func (c *c18Run) twoKinds(ka, kb c18PointKind) {
+	r := c.r
+	cas := map[string]any{"instrument_name": "m", "kinds_in_order": []string{ka.id, kb.id}, "scopes_in_order": []string{"sa", "sb"}}
+	saved := model.NameValidationScheme              //nolint:staticcheck
+	model.NameValidationScheme = model.UTF8Validation //nolint:staticcheck
+	defer func() { model.NameValidationScheme = saved }() //nolint:staticcheck
+	c.handled = c.handled[:0]
+	enum.Guard("process-death|scrape|two-kinds|"+ka.id+"+"+kb.id, cas, r.Here())
+	defer enum.Unguard()
+
+	mk := func(scope string, kind c18PointKind, letter int) metricdata.ScopeMetrics {
+		agg := kind.letters[letter].add(kind.empty(), attribute.NewSet(attribute.String("k", "v")))
+		return metricdata.ScopeMetrics{Scope: instrumentation.Scope{Name: scope}, Metrics: []metricdata.Metrics{{Name: "m", Description: "d", Data: agg}}}
+	}
+	prod := &c18Producer{sm: []metricdata.ScopeMetrics{mk("sa", ka, 0), mk("sb", kb, 2)}}
+	reg := &capturingRegisterer{Registry: prometheus.NewRegistry()}
+	exp, err := New(WithRegisterer(reg), WithProducer(prod))
+	if err != nil || reg.got == nil {
+		r.FailHere("new|exporter construction failed", cas, "New: %v", err)
+		return
+	}
+	mp := metric.NewMeterProvider(metric.WithReader(exp), metric.WithResource(resource.NewSchemaless(c18ResourceKVs...)))
+	defer func() { _ = mp.Shutdown(context.Background()) }()
+	type wantT struct {
+		fam string
+		val refValue
+	}
+	var want [2]wantT
+	for i, kind := range []c18PointKind{ka, kb} {
+		pts, _, err := refPoints(prod.sm[i].Metrics[0])
+		if err != nil || len(pts) != 1 {
+			r.FailHere("harness|reference points", cas, "%v", err)
+			return
+		}
+		names := refNames("m", "", refNaming{counter: kind.counter})
+		want[i] = wantT{names[0], pts[0].val}
+	}
+	promType := func(v refValue) string {
+		if v.typ == "native-histogram" {
+			return "histogram"
+		}
+		return v.typ
+	}
+	conflict := want[0].fam == want[1].fam && promType(want[0].val) != promType(want[1].val)
+	class := "different families"
+	switch {
+	case conflict:
+		class = "same family name, different types"
+	case want[0].fam == want[1].fam:
+		class = "same family"
+	}
+	for i := 0; i < 3; i++ {
+		r.Eval()
+		fams, err := reg.Gather()
+		what := []string{"first scrape", "second scrape", "third scrape"}[i]
+		if err != nil {
+			r.FailHere("two-kinds|gather-error|"+class, cas, "%s: Gather returned %v (errors handled by the exporter: %q)", what, err, c.handled)
+			return
+		}
+		got := map[string]refValue{} // family/scope -> value
+		for _, f := range fams {
+			for _, m := range f.Metric {
+				for _, lp := range m.Label {
+					if lp.GetName() == "otel_scope_name" && f.GetName() != scopeInfoMetricName {
+						_, got[f.GetName()+"/"+lp.GetValue()] = actualValue(f, m)
+					}
+				}
+			}
+		}
+		for j, sc := range []string{"sa", "sb"} {
+			if conflict && j == 1 {
+				continue // cannot be represented next to the first-seen definition
+			}
+			g, ok := got[want[j].fam+"/"+sc]
+			w := want[j].val
+			if !ok {
+				r.FailHere("two-kinds|series missing|"+class+"|"+what, cas, "%s: no series %s{otel_scope_name=%q} (exposed: %v; errors handled by the exporter: %q)", what, want[j].fam, sc, keysOf(got), c.handled)
+				continue
+			}
+			if g.typ != w.typ || !sameFloat(g.value, w.value) || g.count != w.count || !sameFloat(g.sum, w.sum) || g.buckets != w.buckets {
+				r.FailHere("two-kinds|value|"+class, cas, "%s: %s{otel_scope_name=%q} exposed as %+v, aggregated %+v", what, want[j].fam, sc, g, w)
+			}
+		}
+		r.Outcome(fmt.Sprint(ka.id, kb.id, class, len(got)))
+	}
+	r.Sample(func() any { return cas })
+}
+
+func keysOf(m map[string]refValue) []string {
+	var ks []string
+	for k := range m {
+		ks = append(ks, k)
+	}
+	sort.Strings(ks)
+	return ks
+}
+
 func TestVerifC18Points(t *testing.T) {
 	var jobs []string
 	for _, k := range c18PointKinds {
 		jobs = append(jobs, "points/"+k.id)
 	}
-	jobs = append(jobs, "two-scopes")
+	jobs = append(jobs, "two-scopes", "two-kinds")
 	enum.Jobs(jobs, func(job string) {
 		r := enum.Start("C18", "points")
 		defer r.Finish()
@@ -326,6 +431,18 @@ func TestVerifC18Points(t *testing.T) {
 		maxLen := enum.Pick(r, 3, 4)
 		r.Bound("points_max_data_points_per_metric", maxLen)
 		r.Section(job)
+		if job == "two-kinds" {
+			r.Bound("two_kinds_ordered_pairs", len(c18PointKinds)*len(c18PointKinds))
+			r.Bound("two_kinds_scrapes", 3)
+			for _, a := range c18PointKinds {
+				for _, b := range c18PointKinds {
+					if r.Want() {
+						run.twoKinds(a, b)
+					}
+				}
+			}
+			return
+		}
 		if job == "two-scopes" {
 			descs := []string{"", "x", "y"}
 			r.Bound("two_scopes_descriptions", descs)
